@@ -762,6 +762,12 @@ func (x *Exec) typeAssert(fr *Frame, st *State, ins *ssa.TypeAssert) error {
 		// conversion to another interface: succeeds iff non-nil (method set satisfaction abstracted)
 		x.C.Note("interface-to-interface assertion assumes method sets are satisfied when non-nil")
 		ok = Not(Eq(App(SRef, "if-typ", v.T), BVInt(0, 32)))
+		if it := at.Underlying().(*types.Interface); it.NumMethods() > 0 {
+			if _, fromIface := ins.X.Type().Underlying().(*types.Interface); fromIface && !types.Implements(ins.X.Type(), it) {
+				// the static type does not guarantee the method set: decided by the dynamic type
+				ok = And(ok, x.C.Implements(App(SRef, "if-typ", v.T), at))
+			}
+		}
 	} else {
 		ok = Eq(App(SRef, "if-typ", v.T), BVInt(int64(x.C.TypeID(at)), 32))
 	}
@@ -999,6 +1005,10 @@ func (x *Exec) sliceOp(fr *Frame, st *State, ins *ssa.Slice) error {
 			base = x.AllocBacking(st, arr.Elem(), &content)
 			x.C.Note("slice of an array embedded in a struct is modelled by a snapshot copy (writes through it unsupported)")
 			x.snapRefs[base.S] = true
+			if x.snapOrigins == nil {
+				x.snapOrigins = map[string]snapOrigin{}
+			}
+			x.snapOrigins[base.S] = snapOrigin{P: p, Typ: u.Elem(), Epoch: st.Epoch, HeapS: st.Heap[p.Region].S}
 		} else if len(p.Path) == 0 && !p.NonNil {
 			x.obligation(fr, ins, "nil", st.PC, Not(Eq(p.Base, BVInt(0, 32))), "slicing nil array pointer")
 		}
